@@ -120,16 +120,19 @@ ASSUME
   /\ FmtParts(<<102>>).w = None                                                                                          \* "f"
   /\ KeyOf(<<32, 97, 98, 58>>, {58}) = <<97, 98>> /\ KeyOf(<<97, 32, 98>>, {58}) = <<97, 32, 98>>
 
+V01 == Fin(0, FromDigits(<<1, 3, 4, 2, 1, 7, 7, 3>>, 10), -27)
+HW(v, txt) == LET P == PrintedNum(txt) IN WithinPrinted(v, P, Pow5Of(P))
+HR(T, v, txt) == LET P == PrintedNum(txt) IN RoundsTo(T, v, P, Pow5Of(P))
 (* hand cases at the real formats *)
 ASSUME
   /\ RTDigits(RealTypes["f"]) = 9 /\ RTDigits(RealTypes["d"]) = 17 /\ RTDigits(RealTypes["e"]) = 21
   \* 0.1f = 13421773 * 2^-27 printed "0.1" (within), "0.100000001" (9 digits: round trip), not "0.10000001"
-  /\ WithinPrinted(Fin(0, FromDigits(<<1, 3, 4, 2, 1, 7, 7, 3>>, 10), -27), PrintedNum(<<48, 46, 49>>))
-  /\ RoundsTo(RealTypes["f"], Fin(0, FromDigits(<<1, 3, 4, 2, 1, 7, 7, 3>>, 10), -27),
-              PNum(PrintedNum(<<48, 46, 49, 48, 48, 48, 48, 48, 48, 48, 49>>)))
-  /\ ~RoundsTo(RealTypes["f"], Fin(0, FromDigits(<<1, 3, 4, 2, 1, 7, 7, 3>>, 10), -27),
-               PNum(PrintedNum(<<48, 46, 49, 48, 48, 48, 48, 48, 48, 49>>)))
-  /\ ~WithinPrinted(Fin(0, FromDigits(<<1, 3, 4, 2, 1, 7, 7, 3>>, 10), -27), PrintedNum(<<48, 46, 51>>))   \* "0.3"
-  /\ ~WithinPrinted(Fin(0, FromInt(12345), 0), PrintedNum(<<49, 50, 51>>))                                 \* 12345 as "123"
-  /\ WithinPrinted(Fin(0, FromInt(12345), 0), PrintedNum(<<49, 46, 50, 51, 101, 43, 48, 52>>))             \* "1.23e+04"
+  /\ HW(V01, <<48, 46, 49>>)
+  /\ HR(RealTypes["f"], V01, <<48, 46, 49, 48, 48, 48, 48, 48, 48, 48, 49>>)
+  /\ ~HR(RealTypes["f"], V01, <<48, 46, 49, 48, 48, 48, 48, 48, 48, 49>>)
+  /\ ~HW(V01, <<48, 46, 51>>)                                              \* "0.3"
+  /\ ~HW(Fin(0, FromInt(12345), 0), <<49, 50, 51>>)                         \* 12345 as "123"
+  /\ HW(Fin(0, FromInt(12345), 0), <<49, 46, 50, 51, 101, 43, 48, 52>>)     \* "1.23e+04"
+  /\ HW(Fin(0, FromInt(12345), 0), <<49, 50, 51, 52, 53, 46, 48>>)          \* "12345.0"
+  /\ ~HW(Fin(0, FromInt(12345), 0), <<49, 50, 51, 52, 54, 46, 48>>)         \* "12346.0"
 =============================================================================
